@@ -11,6 +11,7 @@ export GOFLAGS=-mod=mod GOPROXY=off GOSUMDB=off GOTOOLCHAIN=local PATH=/opt/veri
 export GOLOG_LOG_LEVEL=fatal
 fail() { echo "BUILD-ERROR: $*" >&2; exit 2; }
 
+rm -rf "$W/deps" "$W/repo" "$W/sim" "$W/simrt"
 mkdir -p "$W/deps" "$W/repo" || fail "mkdir"
 rsync -a --delete --exclude .git "$REPO/" "$W/repo/" || fail "rsync repo"
 MC="$(go env GOMODCACHE)/github.com"
